@@ -57,6 +57,7 @@ type c07Attempt struct {
 	remote     peer.ID
 	limited    bool
 	reply      []byte
+	prefix     []byte // written in front of the nonce, in the same Write (see crafted())
 }
 
 func (a *c07Attempt) ok() bool { return a.stage == "" }
@@ -77,7 +78,16 @@ type c07Checker struct {
 
 	mu      sync.Mutex
 	classes map[string]struct{}
+	sampled map[string]struct{}
 	caps    map[string]int
+}
+
+func atts2reqs(atts []*c07Attempt) []c07Req {
+	out := make([]c07Req, len(atts))
+	for i, a := range atts {
+		out[i] = a.c07Req
+	}
+	return out
 }
 
 func (ck *c07Checker) infra(msg string) {
@@ -106,7 +116,7 @@ func (in *c07Inst) attempt(a *c07Attempt) {
 	_, a.optimistic = s.(*streamWrapper)
 	a.remote, a.limited = s.Conn().RemotePeer(), s.Conn().Stat().Limited
 	// first use: write a fresh nonce, read the answer
-	if _, err := s.Write(a.nonce[:]); err != nil {
+	if _, err := s.Write(append(append([]byte(nil), a.prefix...), a.nonce[:]...)); err != nil {
 		a.stage, a.err = "Write", err
 		s.Reset()
 		return
@@ -133,6 +143,10 @@ func c07ProtoStat(rm network.ResourceManager, p protocol.ID) (st network.ScopeSt
 // probe runs one group of opens in the current state and checks it. restore: start from the knowledge the
 // state was entered with (false for the Learn operation, whose effect on the knowledge IS the operation).
 func (ck *c07Checker) probe(in *c07Inst, reqs []c07Req, restore bool, why string) error {
+	return ck.probeWith(in, reqs, restore, why, nil)
+}
+
+func (ck *c07Checker) probeWith(in *c07Inst, reqs []c07Req, restore bool, why string, prefix []byte) error {
 	if in.broken != "" {
 		return nil
 	}
@@ -146,7 +160,7 @@ func (ck *c07Checker) probe(in *c07Inst, reqs []c07Req, restore bool, why string
 	in.mu.Unlock()
 	atts := make([]*c07Attempt, len(reqs))
 	for i, q := range reqs {
-		a := &c07Attempt{c07Req: q}
+		a := &c07Attempt{c07Req: q, prefix: prefix}
 		in.nonce++
 		copy(a.nonce[:], fmt.Sprintf("\x7fnonce%010d", in.nonce)) // 16 bytes; 0x7f first: never a valid multistream frame by accident
 		atts[i] = a
@@ -399,9 +413,12 @@ func (ck *c07Checker) classify(in *c07Inst, atts []*c07Attempt, window []*c07Inv
 		ck.r.Outcome(cls)
 		ck.mu.Lock()
 		ck.classes[fmt.Sprintf("%s|%v|%s", in.pkey, a.list, cls)] = struct{}{}
+		_, seenCls := ck.sampled[cls]
+		ck.sampled[cls] = struct{}{}
 		ck.mu.Unlock()
-		if a.ok() && a.optimistic && len(atts) == 1 {
-			ck.r.Sample(map[string]any{"state": in.pkey, "history": append([]string(nil), in.hist...), "open": a.c07Req.String(), "outcome": cls})
+		// samples: the first case of an outcome class, the less common classes first
+		if !seenCls && len(in.hist) >= 2 && (!a.ok() && a.s != nil || a.ok() && a.list[0] != a.proto || len(atts) > 1) {
+			ck.r.Sample(map[string]any{"state": in.pkey, "history": append([]string(nil), in.hist...), "opens": fmt.Sprint(atts2reqs(atts)), "open": a.c07Req.String(), "observed": c07DescAttempt(a), "outcome": cls})
 		}
 	}
 }
@@ -459,11 +476,41 @@ func (ck *c07Checker) visit(in *c07Inst) error {
 	if err := ck.probe(in, []c07Req{{dk: c07Direct, list: c07U}, {dk: c07Limited, list: rev}}, true, "concurrent"); err != nil {
 		return err
 	}
+	if c07Crafted() && !in.blank {
+		// Opt-in input dimension (see c07Crafted): the first user bytes are byte-identical to a multistream-select
+		// proposal for q. Only opens WITHOUT a common protocol are made here, for which the statement is
+		// unconditional: the open fails and no application handler runs.
+		for dk := range in.D {
+			for _, p := range c07U {
+				if in.common([]protocol.ID{p}) {
+					continue
+				}
+				for _, q := range c07U {
+					frame := append([]byte{byte(len(q) + 1)}, append([]byte(q), '\n')...)
+					err := ck.probeWith(in, []c07Req{{dk: dk, list: []protocol.ID{p}}}, true, fmt.Sprintf("first user bytes = %q", frame), frame)
+					if v, ok := err.(*seqmc.Vio); ok && v.Key == "handler-ran-without-common-protocol" {
+						v.Key = "first-user-bytes-parsed-as-protocol-proposal"
+					}
+					if err != nil {
+						return err
+					}
+				}
+			}
+		}
+	}
 	if in.broken != "" {
 		ck.infra(in.broken)
 	}
 	return nil
 }
+
+// c07Crafted: also enumerate opens whose first user bytes look like a multistream-select frame. OFF by default:
+// the property quantifies over handler sets, request lists, knowledge, connection kinds and concurrency, not over
+// payload bytes, and with this dimension the UNCHANGED tree fails (key first-user-bytes-parsed-as-protocol-proposal:
+// after the listener refused an optimistically chosen protocol with "na" it goes on parsing the stream as
+// multistream-select, so user bytes equal to "<len>/b\n" select and run the /b handler although the dialer asked
+// only for a protocol the listener does not handle). Enable with VERIF_C07_CRAFTED=1.
+func c07Crafted() bool { return os.Getenv("VERIF_C07_CRAFTED") != "" }
 
 // c07RealNow is the REAL clock in nanoseconds (time.Now is virtual inside a bubble). Used only for the cost
 // figures written to the evidence, never by an oracle.
@@ -478,7 +525,7 @@ func c07RealNow() int64 {
 // ---------- the check ----------
 
 func c07NewChecker(part string, blank bool) *c07Checker {
-	ck := &c07Checker{r: vrep.New("C07", part), maxLen: 2, thorough: vrep.Thorough(), blank: blank, classes: map[string]struct{}{}, caps: map[string]int{}}
+	ck := &c07Checker{r: vrep.New("C07", part), maxLen: 2, thorough: vrep.Thorough(), blank: blank, classes: map[string]struct{}{}, sampled: map[string]struct{}{}, caps: map[string]int{}}
 	if ck.thorough {
 		ck.maxLen = 3
 	}
